@@ -43,6 +43,7 @@ func c05Mutants(c *Ctx, i int64) (*seedFrame, []gen.Mutant) {
 	case 1:
 		o := &c05Seeds[(int(i/c05Families)+1+g.N(len(c05Seeds)-1))%len(c05Seeds)]
 		ms = gen.Structural(g, s.frame, s.pf, o.frame, o.pf)
+		ms = append(ms, gen.FarOffsets(s.frame, s.pf)...)
 	default:
 		n := 400
 		if c.Tier == "thorough" {
